@@ -62,7 +62,8 @@ func runC08(c *engine.Ctx) {
 				for _, m := range []string{"absent", "correct", "wrong", "not-base64", "short15", "long17", "empty"} {
 					for _, dl := range []string{"exact", "plus1", "missing", "negative", "nonnumeric"} {
 						framings := []string{"plain"}
-						if target == "object" && dl == "exact" {
+						if dl == "exact" {
+							// (parts are sent with the aws-chunked framing like whole objects)
 							framings = []string{"plain", "chunked", "chunked-dec+1", "chunked-dec-1"}
 						}
 						for _, fr := range framings {
@@ -75,9 +76,7 @@ func runC08(c *engine.Ctx) {
 				// zero-length bodies: the digest and framing rules apply to them too
 				{
 					efr := []string{"plain", "chunked", "chunked-dec+1"}
-					if target == "part" {
-						efr = []string{"plain"}
-					}
+
 					for _, m := range []string{"absent", "correct", "wrong", "not-base64", "short15", "long17", "empty"} {
 						for _, fr := range efr {
 							for _, integ := range []bool{true, false} {
